@@ -7,7 +7,7 @@ import subprocess
 import time
 
 from simbench import BENCHES, bench_constants, write_mc_module
-from tla import OUT, ToolError, parse_printed, run_tlc
+from tla import OUT, ToolError, parse_printed, run_tlc, confirm_rejection
 
 HARNESS = os.path.join(os.path.dirname(OUT), "harness", "target", "release", "vharness")
 
@@ -231,6 +231,14 @@ class Rejection:
         self.context = context  # a few events before
 
 
+def _norm_event(e):
+    if "wild" not in e:
+        e = dict(e, wild=[])
+    if e.get("ev") == "reset" and "ss" not in e:
+        e = dict(e, ss=False)
+    return e
+
+
 def _validate_chunk(bench, mod, cfg, chunk, workdir, tag, max_rejections, timeout):
     """Validates one chunk of runs (sequentially re-starting after each rejected run)."""
     remaining = list(chunk)
@@ -291,9 +299,12 @@ def _validate_chunk(bench, mod, cfg, chunk, workdir, tag, max_rejections, timeou
         rs = reason
         if ev is not None and ev.get("ev") in ("hang", "crash") and reason == "unmatched":
             rs = ev["ev"]
-        rejections.append(Rejection(r, k, ev, rs, r[max(0, k - 6):k]))
         os.remove(path)
         remaining = remaining[hit + 1:]
+        if not confirm_rejection(mod, cfg, workdir, tag, r, res, write_event=_norm_event):
+            accepted += 1
+            continue
+        rejections.append(Rejection(r, k, ev, rs, r[max(0, k - 6):k]))
     return accepted, rejections, stats
 
 
